@@ -22,9 +22,12 @@ impl BinarySerializer for Weekday {
 
 impl BinaryDeserializer for Weekday {
     fn deserialize(context: &mut DeserializationContext<'_>) -> Result<Self> {
-        Weekday::from_i8(i8::deserialize(context)? - 1).ok_or_else(|| {
-            Error::DeserializationFailure("Failed to deserialize Weekday".to_string())
-        })
+        i8::deserialize(context)?
+            .checked_sub(1)
+            .and_then(Weekday::from_i8)
+            .ok_or_else(|| {
+                Error::DeserializationFailure("Failed to deserialize Weekday".to_string())
+            })
     }
 }
 
